@@ -119,6 +119,8 @@ def _ubound(e, memo):
                 raise UnknownNode(name)
             return 0  # affine simplex cells: every other geometric quantity is constant on the cell
         raise UnknownNode(name)
+    if name in ("Grad", "ReferenceGrad") and type(ops[0]).__name__ in ("SpatialCoordinate", "CellCoordinate"):
+        return 0  # affine cells: the coordinate fields are affine in each other, their gradients are the (constant) Jacobian data
     if name in _MAX_OF_OPERANDS:
         return max([ubound(o, memo) for o in ops] + [0])
     if name in _SUM_OF_OPERANDS:
